@@ -71,6 +71,121 @@ def _run_case(args) -> Dict[str, Any]:
     return {"id": cid, "kind": kind, "status": "silent"}
 
 
+def apply_unified_diff(text: str, hunks_text: str) -> Optional[str]:
+    """Apply the hunks of one file of a unified diff to `text` (exact context
+    match at the stated line, else searched nearby). None if a hunk fails."""
+    import re
+
+    lines = text.split("\n")
+    out: List[str] = []
+    pos = 0
+    hunk_re = re.compile(r"^@@ -(\d+)(?:,(\d+))? \+(\d+)(?:,(\d+))? @@")
+    hl = hunks_text.split("\n")
+    i = 0
+    while i < len(hl):
+        m = hunk_re.match(hl[i])
+        if not m:
+            i += 1
+            continue
+        start = int(m.group(1)) - 1
+        i += 1
+        old_seg, new_seg = [], []
+        while i < len(hl) and not hl[i].startswith("@@") and not hl[i].startswith("diff --git"):
+            l = hl[i]
+            if l.startswith("\\"):
+                pass
+            elif l.startswith("+"):
+                new_seg.append(l[1:])
+            elif l.startswith("-"):
+                old_seg.append(l[1:])
+            elif l.startswith(" ") or l == "":
+                if l == "" and i == len(hl) - 1:
+                    break
+                old_seg.append(l[1:])
+                new_seg.append(l[1:])
+            i += 1
+        cand = [start] + [start + d for k in range(1, 400) for d in (k, -k)]
+        at = None
+        for c in cand:
+            if c >= pos and lines[c:c + len(old_seg)] == old_seg:
+                at = c
+                break
+        if at is None:
+            return None
+        out += lines[pos:at] + new_seg
+        pos = at + len(old_seg)
+    out += lines[pos:]
+    return "\n".join(out)
+
+
+def split_diff(diff_text: str) -> Dict[str, str]:
+    """file rel path -> hunks text"""
+    files: Dict[str, List[str]] = {}
+    cur = None
+    for l in diff_text.split("\n"):
+        if l.startswith("diff --git"):
+            cur = None
+        elif l.startswith("+++ b/"):
+            cur = l[6:].strip()
+            files[cur] = []
+        elif cur is not None and not l.startswith("--- "):
+            files[cur].append(l)
+    return {k: "\n".join(v) for k, v in files.items()}
+
+
+SEEDED_DIR = os.path.join(os.path.dirname(os.path.dirname(os.path.abspath(__file__))), "seeded")
+
+
+def seeded_cases(prop: str) -> List[Dict[str, Any]]:
+    """Seeded changes produced independently (sub-agents); those recorded as
+    detected must keep being reported by the named rule."""
+    import json
+
+    out = []
+    if not os.path.isdir(SEEDED_DIR):
+        return out
+    for d in sorted(os.listdir(SEEDED_DIR)):
+        mp = os.path.join(SEEDED_DIR, d, "meta.json")
+        pp = os.path.join(SEEDED_DIR, d, "patch.diff")
+        if not (os.path.exists(mp) and os.path.exists(pp)):
+            continue
+        with open(mp, "r", encoding="utf-8") as f:
+            meta = json.load(f)
+        for det in meta.get("detected_by", []):
+            if det.get("property") == prop:
+                out.append({"id": "seeded:" + d, "patch": pp, "expect": det.get("rule")})
+    return out
+
+
+def _run_seeded(args) -> Dict[str, Any]:
+    prop, case, repo = args
+    global _BASE
+    if _BASE is None or _BASE.repo != repo:
+        _BASE = Program(repo)
+    base = _BASE
+    with open(case["patch"], "r", encoding="utf-8") as f:
+        files = split_diff(f.read())
+    prog = base
+    try:
+        for rel, hunks in files.items():
+            m = base.modules.get(rel[:-3].replace("/", "."))
+            if m is None:
+                return {"id": case["id"], "kind": "seeded", "status": "stale", "why": f"{rel} missing"}
+            new = apply_unified_diff(m.src, hunks)
+            if new is None:
+                return {"id": case["id"], "kind": "seeded", "status": "stale", "why": f"patch no longer applies to {rel}"}
+            prog = prog.with_override(rel, new)
+        b, _ = _viol(prop, base)
+        v, ctx = _viol(prop, prog)
+    except AnalysisError as e:
+        return {"id": case["id"], "kind": "seeded", "status": "killed", "by": f"ANALYSIS-ERROR {e}"[:160]}
+    fresh = sorted(v - b)
+    hit = [f for f in fresh if not case["expect"] or f[0].startswith(case["expect"])]
+    if hit:
+        return {"id": case["id"], "kind": "seeded", "status": "killed", "by": f"{hit[0][0]} {hit[0][1]}"}
+    return {"id": case["id"], "kind": "seeded", "status": "FAILED", "why": f"seeded change no longer reported (fresh={fresh[:3]})"}
+
+
 def cases_for(prop: str) -> List[Case]:
     try:
         mod = importlib.import_module(f"sa.selftests.{prop.lower()}")
@@ -81,15 +196,17 @@ def cases_for(prop: str) -> List[Case]:
 
 def run_for(prop: str, repo: str = REPO, jobs: Optional[int] = None) -> Dict[str, Any]:
     cases = cases_for(prop)
-    if not cases:
+    seeded = seeded_cases(prop)
+    if not cases and not seeded:
         return {"selftest": {"cases": 0}}
-    jobs = jobs or min(16, len(cases), os.cpu_count() or 4)
+    jobs = jobs or max(1, min(16, len(cases) + len(seeded), os.cpu_count() or 4))
     work = [(prop, c, repo) for c in cases]
+    swork = [(prop, c, repo) for c in seeded]
     if jobs > 1:
         with ProcessPoolExecutor(max_workers=jobs) as ex:
-            res = list(ex.map(_run_case, work))
+            res = list(ex.map(_run_case, work)) + list(ex.map(_run_seeded, swork))
     else:
-        res = [_run_case(w) for w in work]
+        res = [_run_case(w) for w in work] + [_run_seeded(w) for w in swork]
     failed = [r for r in res if r["status"] == "FAILED"]
     out = {
         "selftest": {
@@ -97,6 +214,7 @@ def run_for(prop: str, repo: str = REPO, jobs: Optional[int] = None) -> Dict[str
             "mutants_killed": sum(1 for r in res if r["status"] == "killed"),
             "twins_silent": sum(1 for r in res if r["status"] == "silent"),
             "stale": sum(1 for r in res if r["status"] == "stale"),
+            "seeded_changes_detected": sum(1 for r in res if r["kind"] == "seeded" and r["status"] == "killed"),
             "failed": len(failed),
             "results": res,
         }
